@@ -110,7 +110,9 @@ namespace ratio
         else if (std::all_of(xprs.cbegin(), xprs.cend(), [](const arith_expr &aex)
                              { return aex->get_type().get_name() == REAL_KEYWORD; }))
             return *types.at(REAL_KEYWORD);
-        else if (std::all_of(xprs.cbegin(), xprs.cend(), [this](const arith_expr &aex)
+        else if (std::any_of(xprs.cbegin(), xprs.cend(), [](const arith_expr &aex)
+                             { return aex->get_type().get_name() == TP_KEYWORD; }) && // without a time-point there is nothing for the difference logic theory: mixed int / real expressions are linear real arithmetic, even when their bounds coincide..
+                 std::all_of(xprs.cbegin(), xprs.cend(), [this](const arith_expr &aex)
                              { return aex->get_type().get_name() == TP_KEYWORD || aex->l.vars.empty() || lra_th.lb(aex->l) == lra_th.ub(aex->l); }))
             return *types.at(TP_KEYWORD);
         else
